@@ -32,3 +32,15 @@ package zkencelg
 //@   nopanic[C05]
 //@   inline
 //@   requires hash != nil && hash.h != nil && group != nil && public.C != nil && public.A != nil && public.B != nil && public.X != nil && pkok(public.Prover) && pkvals(public.Prover) && pkbig(public.Prover) && pedok(public.Aux) && commitment != nil
+//@   use absorb
+//@   ensures[C10] result1 == nil ==> absorbed(hstate(hash), habs(iface(public.C)))
+//@   ensures[C10] result1 == nil ==> absorbed(hstate(hash), habs(iface(public.A)))
+//@   ensures[C10] result1 == nil ==> absorbed(hstate(hash), habs(iface(public.B)))
+//@   ensures[C10] result1 == nil ==> absorbed(hstate(hash), habs(iface(public.X)))
+//@   ensures[C10] result1 == nil ==> absorbed(hstate(hash), habs(iface(public.Prover)))
+//@   ensures[C10] result1 == nil ==> absorbed(hstate(hash), habs(iface(public.Aux)))
+//@   ensures[C10] result1 == nil ==> absorbed(hstate(hash), habs(iface(commitment.S)))
+//@   ensures[C10] result1 == nil ==> absorbed(hstate(hash), habs(iface(commitment.D)))
+//@   ensures[C10] result1 == nil ==> absorbed(hstate(hash), habs(iface(commitment.Y)))
+//@   ensures[C10] result1 == nil ==> absorbed(hstate(hash), habs(iface(commitment.Z)))
+//@   ensures[C10] result1 == nil ==> absorbed(hstate(hash), habs(iface(commitment.T)))
